@@ -6,9 +6,9 @@ use crate::proj::*;
 use crate::util::*;
 use std::process::Command;
 
-const KINDS: [&str; 14] = [
+const KINDS: [&str; 15] = [
     "bad-directive", "cmd-fails", "cmd-killed", "cmd-killed-term", "missing-include", "include-dir", "include-invalid-utf8", "source-invalid-utf8",
-    "output-is-dir", "temp-missing-dir", "temp-is-dir", "tag-unused", "dev-full", "fsize-limit",
+    "output-is-dir", "temp-missing-dir", "temp-is-dir", "tag-unused", "dev-full", "fsize-limit", "fsize-limit-temp",
 ];
 
 /// chain root -> middle -> leaf, plus an unrelated sibling; `pos` selects the faulty file
@@ -27,6 +27,14 @@ fn chain_project(kind: &str, pos: usize, big: bool) -> Project {
         if i == pos {
             match kind {
                 "bad-directive" => s.push_str("TXTPP#run echo no prefix\n"),
+                // small outputs, but a temp file whose body exceeds the file-size limit: the short write must be an error
+                "fsize-limit-temp" => {
+                    s.push_str("-TXTPP#temp big_temp.tmp\n");
+                    for _ in 0..6 {
+                        s.push_str(&format!("-{}\n", "0123456789abcdef".repeat(40)));
+                    }
+                    s.push_str("~\n");
+                }
                 "cmd-fails" => {
                     s.push_str("-TXTPP#run exit 3\n");
                     cmds.push(("exit 3".to_string(), vec![Act { kind: "fail", arg: String::new() }]));
@@ -80,7 +88,7 @@ pub fn run_c04f(args: &Args) -> Report {
                 if case_no % args.shards.max(1) != args.shard {
                     continue;
                 }
-                let special = kind == "dev-full" || kind == "fsize-limit";
+                let special = kind == "dev-full" || kind.starts_with("fsize-limit");
                 if special && mode != "build" {
                     continue;
                 }
@@ -131,8 +139,8 @@ pub fn run_c04f(args: &Args) -> Report {
                 };
                 if special {
                     // CLI in a child process
-                    let limit_blocks = if kind == "fsize-limit" { 1 + rng.below(3) } else { 0 };
-                    let script = if kind == "fsize-limit" {
+                    let limit_blocks = if kind == "fsize-limit" { 1 + rng.below(3) } else if kind == "fsize-limit-temp" { 2 } else { 0 };
+                    let script = if kind.starts_with("fsize-limit") {
                         format!("trap '' XFSZ; ulimit -f {limit_blocks}; exec {} -q -r -j {} .", bin.display(), cfg.threads)
                     } else {
                         format!("exec {} -q -r -j {} .", bin.display(), cfg.threads)
